@@ -50,6 +50,12 @@ CHECKS = {
         "trusted: flat-class construction in mc/checks/c15.py; in-place mutation of inherited keyword values and docstring descriptions are outside the alphabet",
         "exhaustive enumeration of inheritance declarations + explicit-state BFS over define/use/reconfigure histories, parent-unchanged invariant",
     ),
+    "C14": (
+        "E3-schedule",
+        "Real threads validating on one shared tree are run under a baton scheduler whose scheduling points are trace events inside statham files; all schedules with <=1 preemption at line granularity (quick: 5 harnesses; thorough: 11) and at call/backward-jump granularity (4 harnesses, one with 3 threads), and all schedules with <=2 preemptions at call/backward-jump granularity on small harnesses (thorough: complete for T1, T3; quick: a seed-rotated slice of first preemption points for T3) are executed to completion; each thread's verdict/result must equal its sequential run and the tree snapshot must be unchanged; replayed prefixes must not diverge.",
+        "trusted: mc/sched.py (determinism probe replays one schedule twice per harness before exploring; divergence is a hard error); intra-line switches and C-extension internals are atomic; two preemptions at line granularity are not claimed",
+        "stateless model checking of thread interleavings with iterative context bounding on the real code (sys.settrace scheduling points, semaphore baton)",
+    ),
 }
 
 PENDING_REASON = "check not built yet in this session (planned in DESIGN.md section 4); no claim is made until its machinery exists"
